@@ -458,3 +458,39 @@ M('c18-ready-flag-polarity', 'C18', 'R9', WS, _READY_OLD,
 M('c18-ready-is-not-closed-state-only', 'C18', 'R9', WS, _READY_OLD, "            self._state != _WebSocketState.CLOSED\n")
 M('c18-ready-or-for-and', 'C18', 'R9', WS, _READY_OLD,
   "            self._state == _WebSocketState.ACCEPTED\n            or not self._buffered_receiver.client_disconnected\n")
+
+# ------------------------------------------------------------------ wave 9 (s9-c18-3): the flag is identified by def-use in the pump,
+# not through its reader _send - the sender's bookkeeping MOVED into the guard the receive_* methods share
+_FLAG_BLOCK = """        if self._buffered_receiver.client_disconnected:
+            self._state = _WebSocketState.CLOSED
+            self._close_code = self._buffered_receiver.client_disconnected_code
+
+"""
+_REQ_TAIL = """        elif self._state == _WebSocketState.CLOSED:
+            raise errors.WebSocketDisconnected(self._close_code)
+
+    def _translate_webserver_error"""
+M2('c18-flag-bookkeeping-moved-to-require-accepted', 'C18', 'R7', [
+    {'file': WS, 'old': _FLAG_BLOCK, 'new': ""},
+    {'file': WS, 'old': _REQ_TAIL, 'new': """
+""" + _FLAG_BLOCK + """        if self._state == _WebSocketState.CLOSED:
+            raise errors.WebSocketDisconnected(self._close_code)
+
+    def _translate_webserver_error"""},
+], also=('C17',))
+# moved into the receive-side wrapper itself (nobody on the sender's side reads the flag any more)
+M2('c18-flag-bookkeeping-moved-to-receive', 'C18', 'R7', [
+    {'file': WS, 'old': _FLAG_BLOCK, 'new': ""},
+    {'file': WS, 'old': """        self._require_accepted()
+
+        event = await self._receive()
+
+        # PERF(kgriffs): When we normally expect the key to be
+        #   present, this pattern is faster than get()
+""", 'new': """        self._require_accepted()
+""" + _FLAG_BLOCK + """        event = await self._receive()
+
+        # PERF(kgriffs): When we normally expect the key to be
+        #   present, this pattern is faster than get()
+"""},
+], also=('C17',))
